@@ -3,7 +3,7 @@ CHECK = {
  'level': 'fault_enumeration',
  'rule': 'rapid-generated histories of 3-12 steps on a real node whose pebble database lives on a strict in-memory file system (unsynced data is '
          'lost on reset): apply blocks with varied content (transactions, assets, events, validator changes, aggregate commits, finality advance with '
-         'pruning), delete the tip (with/without temp copy), tie-break replacement. For one drawn target step EVERY crash point k in 0..K is '
+         'pruning), delete the tip (with/without temp copy), tie-break replacement, restore of a block parked in the temp area (the failed-sync restore: add with removeTemp). For one drawn target step EVERY crash point k in 0..K is '
          'enumerated (K = number of create/write/sync/rename/remove/dir-sync operations the step issues): nothing from operation k on is durable, then '
          'the database is reopened. Non-trivial = crash point strictly inside the step (0<k<K) on a step that is a delete/tie break or an apply whose '
          'block carried at least two kinds of records. Distinct by (history, step, k)',
@@ -15,6 +15,6 @@ CHECK = {
  'technique': 'fault injection with exhaustive crash-point enumeration per step over property-based generated histories (rapid)',
  'assumptions': ['pebble honours the vfs contract', 'fake application rebuilt to the engine tip after restart'],
  'exhaustive': False,
- 'quick': [{'pkg': 'c13', 'checks': 30, 'timeout': 900}],
+ 'quick': [{'pkg': 'c13', 'checks': 150, 'timeout': 900}],
  'thorough': [{'pkg': 'c13', 'checks': 300, 'shards': 16, 'timeout': 2400}],
 }
